@@ -111,3 +111,81 @@ Proof.
   { destruct H as [H|H]; [destruct (bo_status o); try reflexivity; contradiction|rewrite H; apply andb_false_r]. }
   rewrite E. split; reflexivity.
 Qed.
+
+(* ---- third session: history monotonicity of the same machine ---- *)
+
+(* the status log is append-only: one event appends at most one entry and never rewrites what is there *)
+Lemma bstep_log_grows o e : exists l, bo_log (bstep o e) = bo_log o ++ l /\ (length l <= 1)%nat.
+Proof.
+  assert (Z0 : exists l, bo_log o = bo_log o ++ l /\ (length l <= 1)%nat) by (exists []; rewrite app_nil_r; split; [reflexivity|cbn; lia]).
+  assert (R : forall x, bo_log x = bo_log o -> exists l, bo_log (breset x) = bo_log o ++ l /\ (length l <= 1)%nat).
+  { intros x Hx. unfold breset. destruct (status_eqb (bo_status x) SExecComplete); [rewrite Hx; exact Z0|]. cbn [bset bo_log]. rewrite Hx. eexists; split; [reflexivity|cbn; lia]. }
+  assert (S1 : forall x st, bo_log x = bo_log o -> exists l, bo_log (bset x st) = bo_log o ++ l /\ (length l <= 1)%nat).
+  { intros x st Hx. cbn [bset bo_log]. rewrite Hx. eexists; split; [reflexivity|cbn; lia]. }
+  destruct e as [ok| |final seqnew| | |err| |returned| ]; cbn [bstep].
+  - destruct (bo_place_out o); [|exact Z0]. destruct ok; apply S1; reflexivity.
+  - destruct (bo_place_out o); [|exact Z0]. apply S1; reflexivity.
+  - destruct (bo_status o); try exact Z0.
+    + destruct (bo_bet o); [apply S1; reflexivity|exact Z0].
+    + destruct seqnew; [apply S1; reflexivity|exact Z0].
+    + destruct final; [apply S1; reflexivity|exact Z0].
+  - destruct (status_eqb (bo_status o) SExecutable && bo_bet o); [|exact Z0]. cbn [bcount bo_log]. apply S1; reflexivity.
+  - destruct (status_eqb (bo_status o) SExecutable && bo_bet o); [|exact Z0]. cbn [bcount bo_log]. apply S1; reflexivity.
+  - destruct (bo_upd_out o); [exact Z0|]. destruct err; [apply R; reflexivity|exact Z0].
+  - destruct (bo_upd_out o); [exact Z0|]. apply R; reflexivity.
+  - destruct (bo_can_out o); [exact Z0|]. destruct returned; [apply S1; reflexivity|apply R; reflexivity].
+  - destruct (bo_can_out o); [exact Z0|]. apply R; reflexivity.
+Qed.
+Theorem betdaq_log_append_only es1 es2 : exists l, bo_log (brun (es1 ++ es2)) = bo_log (brun es1) ++ l /\ (length l <= length es2)%nat.
+Proof.
+  unfold brun. rewrite fold_left_app. generalize (fold_left bstep es1 bfresh). intros o.
+  revert o. induction es2 as [|e es IH]; intros o; cbn [fold_left].
+  - exists []. rewrite app_nil_r. split; [reflexivity|cbn; lia].
+  - destruct (bstep_log_grows o e) as (l1 & E1 & L1). destruct (IH (bstep o e)) as (l2 & E2 & L2).
+    exists (l1 ++ l2). rewrite E2, E1, app_assoc. split; [reflexivity|]. rewrite app_length. cbn [length]. lia.
+Qed.
+
+(* the id the exchange gave the order is never lost again, whatever answers and poll rows arrive later *)
+Lemma bstep_keeps_bet o e : bo_bet o = true -> bo_bet (bstep o e) = true.
+Proof.
+  intros Hb.
+  assert (R : forall x, bo_bet x = true -> bo_bet (breset x) = true) by (intros x Hx; unfold breset; destruct (status_eqb (bo_status x) SExecComplete); [exact Hx|exact Hx]).
+  destruct e as [ok| |final seqnew| | |err| |returned| ]; cbn [bstep].
+  - destruct (bo_place_out o); [|exact Hb]. destruct ok; [reflexivity|exact Hb].
+  - destruct (bo_place_out o); [|exact Hb]. exact Hb.
+  - destruct (bo_status o); try exact Hb.
+    + rewrite Hb. exact Hb.
+    + destruct seqnew; exact Hb.
+    + destruct final; exact Hb.
+  - destruct (status_eqb (bo_status o) SExecutable && bo_bet o); exact Hb.
+  - destruct (status_eqb (bo_status o) SExecutable && bo_bet o); exact Hb.
+  - destruct (bo_upd_out o); [exact Hb|]. destruct err; [apply R; exact Hb|exact Hb].
+  - destruct (bo_upd_out o); [exact Hb|]. apply R; exact Hb.
+  - destruct (bo_can_out o); [exact Hb|]. destruct returned; [exact Hb|apply R; exact Hb].
+  - destruct (bo_can_out o); [exact Hb|]. apply R; exact Hb.
+Qed.
+Theorem betdaq_bet_id_kept es1 es2 : bo_bet (brun es1) = true -> bo_bet (brun (es1 ++ es2)) = true.
+Proof.
+  unfold brun. rewrite fold_left_app. generalize (fold_left bstep es1 bfresh). intros o Hb.
+  revert o Hb. induction es2 as [|e es IH]; intros o Hb; cbn [fold_left]; [exact Hb|]. apply IH. apply bstep_keeps_bet. exact Hb.
+Qed.
+
+(* while the placement has not been answered the order rests Pending without an id and with nothing else in flight: no poll row, request or stray
+   answer moves it (the F-C11-3 window: rows polled in this window are dropped, which is why the order cannot move) *)
+Theorem betdaq_unanswered_placement_is_pending es :
+  bo_place_out (brun es) = true -> bo_status (brun es) = SPending /\ bo_bet (brun es) = false /\ bo_upd_out (brun es) = O /\ bo_can_out (brun es) = O.
+Proof. intros H. exact (bi_place _ (brun_BI es bfresh BI_fresh) H). Qed.
+
+(* a request that changes anything was made on an order resting Executable with an id, moves it to exactly the requested status and registers exactly
+   one more outstanding call of its own kind *)
+Theorem betdaq_request_accepted o :
+  (bstep o BReqUpdate <> o -> bo_status o = SExecutable /\ bo_bet o = true /\ bo_status (bstep o BReqUpdate) = SUpdating /\
+     bo_upd_out (bstep o BReqUpdate) = S (bo_upd_out o) /\ bo_can_out (bstep o BReqUpdate) = bo_can_out o) /\
+  (bstep o BReqCancel <> o -> bo_status o = SExecutable /\ bo_bet o = true /\ bo_status (bstep o BReqCancel) = SCancelling /\
+     bo_can_out (bstep o BReqCancel) = S (bo_can_out o) /\ bo_upd_out (bstep o BReqCancel) = bo_upd_out o).
+Proof.
+  cbn [bstep]. destruct (status_eqb (bo_status o) SExecutable && bo_bet o) eqn:E.
+  - apply andb_true_iff in E as [E1 E2]. assert (Hs : bo_status o = SExecutable) by (destruct (bo_status o); try discriminate; reflexivity).
+    split; intros _; repeat split; try assumption; reflexivity.
+  - split; intros H; contradiction H; reflexivity.
+Qed.
